@@ -34,7 +34,7 @@ package finisher
 //@   after send(sourceFinishedCh)#1: nAcked = nAcked + 1; ackPending = 0
 //@   assert send(sourceProducedCh)#1: [fresh-only] seed.status == models.ItemFresh
 //@   assert ReceiveFeedback(seed)#1: [incomplete-only] !isComplete && models.hasWork(seed.status) // C01: a seed goes round again while some URL of its tree still awaits work
-//@   assert MarkAsFinished(seed)#1: [complete-only] isComplete && !models.hasWork(seed.status) && seed.parent == nil // C01: only after every URL in its tree has been fetched, skipped or has failed for good
-//@   assert send(sourceFinishedCh)#1: [marked-first] marked == seed && nAcked == ackedAtMark && nAcked < nFinished // C01: reported back to that queue as finished exactly once (once per MarkAsFinished, after it)
+//@   assert MarkAsFinished(seed)#1: [complete-only] @C01,C04 isComplete && !models.hasWork(seed.status) && seed.parent == nil // C01: only after every URL in its tree has been fetched, skipped or has failed for good
+//@   assert send(sourceFinishedCh)#1: [marked-first] @C01,C04 marked == seed && nAcked == ackedAtMark && nAcked < nFinished // C01: reported back to that queue as finished exactly once (once per MarkAsFinished, after it)
 //@   loop for invariant [acked] @C01,C15 ackPending == 0 || f.sourceFinishedCh == nil // C15: every finished seed is acknowledged to the queue (whenever the source wants acknowledgements, each mark is followed by its notification before the next seed is taken)
 //@   loop for invariant [one-outcome] nRecv == nProduced + nFeedback + nFinished && nAcked <= nFinished && f != nil // C01: never dropped, never reported twice
